@@ -10,6 +10,10 @@ fn main() {
         std::process::exit(2);
     }
     let id = args[0].clone();
+    if id == "child-c18" {
+        bpv::props::c18::child_main(&args[1]);
+        return;
+    }
     if id == "gen-vectors" {
         // bpcheck gen-vectors <out.json> <description of the tree it was recorded from>
         let f = bpv::props::c19::gen_vectors(args.get(2).map(|s| s.as_str()).unwrap_or("unknown"));
